@@ -25,6 +25,12 @@ type c03Node struct {
 	MM   map[string]map[string]*c03Node
 	Any  any
 	Leaf *int
+	// exported but opted out of configuration: dials never lets a source set
+	// these, but every copy of a value carries them along.
+	Skip    *c03Node            `dials:"-"`
+	SkipM   map[string]*c03Node `dials:"-"`
+	SkipS   []*c03Node          `dials:"-"`
+	SkipAny any                 `dials:"-"`
 }
 
 // c03BNode is family "B": type-level recursion only through slices, arrays
@@ -38,6 +44,12 @@ type c03BNode struct {
 	MM    map[string]map[string]*c03BNode
 	Any   any
 	Leaf  *int
+	// (ptrify.Pointerify drops dials:"-" fields before looking at their type,
+	// so the direct *c03BNode here does not make the type recurse)
+	Skip    *c03BNode            `dials:"-"`
+	SkipM   map[string]*c03BNode `dials:"-"`
+	SkipS   []*c03BNode          `dials:"-"`
+	SkipAny any                  `dials:"-"`
 }
 
 type c03Fam struct {
@@ -52,6 +64,7 @@ type c03Fam struct {
 	hasNext                                                bool
 	hasPairs                                               bool
 	fID, fNext, fKids, fPair, fPairs, fM, fMM, fAny, fLeaf int
+	fSkip, fSkipM, fSkipS, fSkipAny                        int
 }
 
 func c03MakeFam(name string, node reflect.Type) *c03Fam {
@@ -70,6 +83,7 @@ func c03MakeFam(name string, node reflect.Type) *c03Fam {
 	}
 	f.fID, f.fNext, f.fKids, f.fPair, f.fPairs = idx("ID"), idx("Next"), idx("Kids"), idx("Pair"), idx("Pairs")
 	f.fM, f.fMM, f.fAny, f.fLeaf = idx("M"), idx("MM"), idx("Any"), idx("Leaf")
+	f.fSkip, f.fSkipM, f.fSkipS, f.fSkipAny = idx("Skip"), idx("SkipM"), idx("SkipS"), idx("SkipAny")
 	f.hasNext = f.fNext >= 0
 	f.hasPairs = f.fPairs >= 0
 	return f
@@ -91,7 +105,8 @@ func c03FamOf(name string) *c03Fam {
 // of map[string]any and elements of []any).
 //
 //	nil | ptr I | node I (struct value copy) | slice L | arr L[0:2] | map I | mm I |
-//	amap I | aslice I | nilptr | nilmap | nilslice | int I | str I | leaf I | pp I
+//	amap I | aslice I | nilptr | nilmap | nilslice | int I | str I | leaf I | pp I |
+//	view I L[lo,hi] ([]*node window Backs[I][lo:hi]) | aview I L[lo,hi] ([]any window ASlices[I][lo:hi])
 type c03AnyPlan struct {
 	K string `json:"k"`
 	I int    `json:"i,omitempty"`
@@ -112,6 +127,11 @@ type c03NodePlan struct {
 	Any    c03AnyPlan `json:"any"`
 	// Leaf: -1 nil; 0..Leafs-1 a shared heap int; 1000+j the address of node j's ID field.
 	Leaf int `json:"leaf"`
+	// the dials:"-" fields
+	Skip    int        `json:"skip"`  // node index, -1 nil
+	SkipM   int        `json:"skipm"` // index into Maps, -1 nil
+	SkipS   []int      `json:"skips,omitempty"`
+	SkipAny c03AnyPlan `json:"skipany"`
 }
 
 type c03Plan struct {
@@ -123,6 +143,9 @@ type c03Plan struct {
 	AMaps   []map[string]c03AnyPlan `json:"amaps,omitempty"`   // map[string]any objects
 	ASlices [][]c03AnyPlan          `json:"aslices,omitempty"` // []any objects
 	ASpare  []int                   `json:"aspare,omitempty"`  // spare capacity of each []any object
+	// Backs: backing arrays of []*node; interface payloads of kind "view"
+	// are windows [lo:hi] into them (overlapping views of one array).
+	Backs [][]int `json:"backs,omitempty"`
 }
 
 // c03Built is a materialised plan.
@@ -134,6 +157,7 @@ type c03Built struct {
 	amaps   []map[string]any
 	aslices [][]any
 	leafs   []*int
+	backs   []reflect.Value // []*node of full length
 }
 
 func (b *c03Built) nodeOrNil(i int) reflect.Value {
@@ -185,6 +209,13 @@ func c03Build(p *c03Plan) *c03Built {
 		}
 		b.aslices = append(b.aslices, make([]any, len(s), len(s)+spare))
 	}
+	for _, bk := range p.Backs {
+		s := reflect.MakeSlice(f.slice, len(bk), len(bk))
+		for j, k := range bk {
+			s.Index(j).Set(b.nodeOrNil(k))
+		}
+		b.backs = append(b.backs, s)
+	}
 	for mi, m := range p.Maps {
 		for _, k := range c03SortedKeys(m) {
 			b.maps[mi].SetMapIndex(reflect.ValueOf(k), b.nodeOrNil(m[k]))
@@ -232,6 +263,19 @@ func c03Build(p *c03Plan) *c03Built {
 		if np.MM >= 0 && np.MM < len(b.mmaps) {
 			n.Field(f.fMM).Set(b.mmaps[np.MM])
 		}
+		if np.Skip >= 0 {
+			n.Field(f.fSkip).Set(b.nodeOrNil(np.Skip))
+		}
+		if np.SkipM >= 0 && np.SkipM < len(b.maps) {
+			n.Field(f.fSkipM).Set(b.maps[np.SkipM])
+		}
+		if np.SkipS != nil {
+			s := reflect.MakeSlice(f.slice, len(np.SkipS), len(np.SkipS))
+			for j, k := range np.SkipS {
+				s.Index(j).Set(b.nodeOrNil(k))
+			}
+			n.Field(f.fSkipS).Set(s)
+		}
 		switch {
 		case np.Leaf >= 1000 && np.Leaf-1000 < len(b.nodes):
 			n.Field(f.fLeaf).Set(b.nodes[np.Leaf-1000].Elem().Field(f.fID).Addr())
@@ -244,6 +288,9 @@ func c03Build(p *c03Plan) *c03Built {
 	for i, np := range p.Nodes {
 		if v := b.anyValue(&np.Any); v != nil {
 			b.nodes[i].Elem().Field(f.fAny).Set(reflect.ValueOf(v))
+		}
+		if v := b.anyValue(&np.SkipAny); v != nil {
+			b.nodes[i].Elem().Field(f.fSkipAny).Set(reflect.ValueOf(v))
 		}
 	}
 	for mi, m := range p.AMaps {
@@ -262,6 +309,7 @@ func c03Build(p *c03Plan) *c03Built {
 				c := reflect.New(f.node).Elem()
 				c.Set(reflect.ValueOf(v))
 				c.Field(f.fAny).Set(reflect.Zero(c.Field(f.fAny).Type()))
+				c.Field(f.fSkipAny).Set(reflect.Zero(c.Field(f.fSkipAny).Type()))
 				v = c.Interface()
 			}
 			b.aslices[si][j] = v
@@ -314,6 +362,16 @@ func (b *c03Built) anyValue(a *c03AnyPlan) any {
 			return []any(nil)
 		}
 		return b.aslices[a.I]
+	case "view":
+		if a.I < 0 || a.I >= len(b.backs) || len(a.L) != 2 {
+			return reflect.Zero(f.slice).Interface()
+		}
+		return b.backs[a.I].Slice(a.L[0], a.L[1]).Interface()
+	case "aview":
+		if a.I < 0 || a.I >= len(b.aslices) || len(a.L) != 2 {
+			return []any(nil)
+		}
+		return b.aslices[a.I][a.L[0]:a.L[1]]
 	case "nilptr":
 		return reflect.Zero(f.ptr).Interface()
 	case "nilmap":
@@ -360,7 +418,10 @@ func c03GenAny(r *fw.Rand, p *c03Plan, n int, asliceBelow int) c03AnyPlan {
 		ks = append(ks, wk{"amap", 8})
 	}
 	if asliceBelow > 0 {
-		ks = append(ks, wk{"aslice", 5})
+		ks = append(ks, wk{"aslice", 5}, wk{"aview", 6})
+	}
+	if len(p.Backs) > 0 {
+		ks = append(ks, wk{"view", 14})
 	}
 	if p.Leafs > 0 {
 		ks = append(ks, wk{"leaf", 4})
@@ -402,12 +463,37 @@ func c03GenAny(r *fw.Rand, p *c03Plan, n int, asliceBelow int) c03AnyPlan {
 		a.I = r.Intn(len(p.AMaps))
 	case "aslice":
 		a.I = r.Intn(asliceBelow)
+	case "aview":
+		a.I = r.Intn(asliceBelow)
+		a.L = c03GenWindow(r, len(p.ASlices[a.I]))
+	case "view":
+		a.I = r.Intn(len(p.Backs))
+		a.L = c03GenWindow(r, len(p.Backs[a.I]))
 	case "leaf":
 		a.I = r.Intn(p.Leafs)
 	case "int", "str":
 		a.I = r.Intn(5)
 	}
 	return a
+}
+
+// c03GenWindow draws a window [lo,hi] of a backing array of length n: the
+// whole array, a prefix (same start, shorter: what append within capacity
+// gives the other way round), a suffix (different start) or a middle part.
+func c03GenWindow(r *fw.Rand, n int) []int {
+	if n == 0 {
+		return []int{0, 0}
+	}
+	switch r.Intn(4) {
+	case 0:
+		return []int{0, n}
+	case 1:
+		return []int{0, r.Intn(n)}
+	case 2:
+		return []int{r.Range(1, n), n}
+	}
+	lo := r.Intn(n)
+	return []int{lo, r.Range(lo, n)}
 }
 
 // c03GenSpare draws the spare capacity of a slice of length l: zero-length
@@ -466,7 +552,16 @@ func c03GenPlan(r *fw.Rand, fam string, o c03GenOpts) *c03Plan {
 		p.AMaps = append(p.AMaps, nil)
 	}
 	for i := 0; i < nas; i++ {
-		p.ASlices = append(p.ASlices, nil)
+		// lengths are fixed now so that windows ("aview") can be drawn
+		// before the elements are
+		p.ASlices = append(p.ASlices, make([]c03AnyPlan, r.Range(0, 3)))
+	}
+	for i := r.Intn(3); i > 0; i-- {
+		bk := make([]int, r.Range(1, 4))
+		for j := range bk {
+			bk[j] = r.Intn(n+1) - 1
+		}
+		p.Backs = append(p.Backs, bk)
 	}
 	density := []int{15, 35, 60}[r.Intn(3)]
 	p.Nodes = make([]c03NodePlan, n)
@@ -478,7 +573,8 @@ func c03GenPlan(r *fw.Rand, fam string, o c03GenOpts) *c03Plan {
 	}
 	for i := range p.Nodes {
 		np := &p.Nodes[i]
-		np.Next, np.M, np.MM, np.Leaf = -1, -1, -1, -1
+		np.Next, np.M, np.MM, np.Leaf, np.Skip, np.SkipM = -1, -1, -1, -1, -1, -1
+		np.SkipAny = c03AnyPlan{K: "nil"}
 		np.Pair = [2]int{-1, -1}
 		if fam == "A" && r.Chance(density+20) {
 			np.Next = r.Intn(n)
@@ -524,6 +620,22 @@ func c03GenPlan(r *fw.Rand, fam string, o c03GenOpts) *c03Plan {
 		} else {
 			np.Any = c03AnyPlan{K: "nil"}
 		}
+		// the dials:"-" fields carry edges like any other field
+		if r.Chance(density) {
+			np.Skip = r.Intn(n)
+		}
+		if len(p.Maps) > 0 && r.Chance(density/2+5) {
+			np.SkipM = r.Intn(len(p.Maps))
+		}
+		if r.Chance(density/2 + 5) {
+			np.SkipS = make([]int, r.Range(0, 3))
+			for j := range np.SkipS {
+				np.SkipS[j] = pick()
+			}
+		}
+		if r.Chance(density/2 + 10) {
+			np.SkipAny = c03GenAny(r, p, n, len(p.ASlices))
+		}
 		if r.Chance(35) {
 			if o.Interior > 0 && r.Chance(o.Interior) {
 				np.Leaf = 1000 + r.Intn(n)
@@ -543,12 +655,11 @@ func c03GenPlan(r *fw.Rand, fam string, o c03GenOpts) *c03Plan {
 		p.AMaps[i] = m
 	}
 	for i := range p.ASlices {
-		l := r.Range(0, 3)
-		s := make([]c03AnyPlan, l)
+		s := p.ASlices[i]
+		l := len(s)
 		for j := range s {
 			s[j] = c03GenAny(r, p, n, i) // only []any objects with a smaller index
 		}
-		p.ASlices[i] = s
 		p.ASpare = append(p.ASpare, c03GenSpare(r, l))
 	}
 	return p
@@ -557,5 +668,5 @@ func c03GenPlan(r *fw.Rand, fam string, o c03GenOpts) *c03Plan {
 // c03TrivialPlan is a single node without references (used as "empty"
 // defaults for source-only scenarios).
 func c03TrivialPlan(fam string) *c03Plan {
-	return &c03Plan{Fam: fam, Nodes: []c03NodePlan{{Next: -1, M: -1, MM: -1, Leaf: -1, Pair: [2]int{-1, -1}, Any: c03AnyPlan{K: "nil"}}}}
+	return &c03Plan{Fam: fam, Nodes: []c03NodePlan{{Next: -1, M: -1, MM: -1, Leaf: -1, Skip: -1, SkipM: -1, Pair: [2]int{-1, -1}, Any: c03AnyPlan{K: "nil"}, SkipAny: c03AnyPlan{K: "nil"}}}}
 }
